@@ -597,7 +597,8 @@ fn exhaustive(a: &Args, variant: &str) -> Vec<Vec<String>> {
     } else {
         ["attach_n 0", "attach_n 1", "attach_d 0 F", "attach_d 1 0", "attach_i F", "attach_i 0", "drop_old", "drop_new", "notify 0 1", "notify 1 2", "drain 0", "run_once"].iter().map(|x| x.to_string()).collect()
     };
-    let configs: Vec<String> = if variant == "cap" { vec!["new cap 2 2 1".into(), "new cap 1 2 2".into()] } else { vec![format!("new {variant} {} 2 1", real_capacity(variant))] };
+    let mut configs: Vec<String> = if variant == "cap" { vec!["new cap 2 2 1".into(), "new cap 1 2 2".into()] } else { vec![format!("new {variant} {} 2 1", real_capacity(variant))] };
+    if a.rest.iter().any(|x| x == "one") { configs.truncate(1); }
     for cfg in configs.iter() {
         enumerate_seqs(&alphabet, a.exhaustive as usize, &mut |seq| {
             let mut lines = vec![cfg.clone()];
